@@ -43,7 +43,9 @@ def gen_cases(tier, seed):
             cases.append(frame(rng, qos, 0x010a, 4, 8, trunc=tr))
     for llc in ([0xaa, 0xaa, 3, 0, 0, 1, 0x88, 0x8e], [0xaa, 0xaa, 3, 0, 0, 0, 0x88, 0x8f], [0xaa, 0xaa, 3, 0, 0, 0, 0x8e, 0x88],
                 [0, 0, 0, 1, 0, 0, 0x88, 0x8e], [0xaa, 0xaa, 3, 0, 1, 0, 0x88, 0x8e], [1, 2, 3, 0, 0, 0, 0x88, 0x8e],
-                [0xaa, 0xaa, 3, 0, 0, 0, 0x08, 0x00], [0xaa, 0xaa, 3, 0, 0, 0, 0x88, 0x0e]):
+                [0xaa, 0xaa, 3, 0, 0, 0, 0x08, 0x00], [0xaa, 0xaa, 3, 0, 0, 0, 0x88, 0x0e],
+                [0x42, 0x42, 3, 0, 0, 0, 0x88, 0x8e], [0xaa, 0xaa, 0x13, 0, 0, 0, 0x88, 0x8e], [0xaa, 0xab, 3, 0, 0, 0, 0x88, 0x8e],
+                [0xab, 0xaa, 3, 0, 0, 0, 0x88, 0x8e], [0, 0, 0, 0, 0, 0, 0x88, 0x8e]):
         for qos in (0, 1):
             cases.append(frame(rng, qos, 0x13ca, 2, 2, llc=llc))
     for fc0 in (0x80, 0x40, 0xb4, 0x48, 0xc8, 0xd8, 0x0c):     # non-data, null data, reserved QoS subtype
